@@ -126,12 +126,28 @@ def api_search(chk, n_cases):
         corr = oqupy.PowerLawSD(alpha=rng.choice([0.05, 0.3]), zeta=rng.choice([1, 3]), cutoff=rng.choice([1.0, 4.0]),
                                 cutoff_type=rng.choice(["exponential", "gaussian"]), temperature=rng.choice([0.0, 0.5]))
         op = rng.choice([0.5 * sz, 0.5 * sx + 0.2 * sz, np.diag([1.0, 1.0]) * 0.3 + 0.5 * sy])
+        three = (it % 4 == 3)
+        if three:
+            # a three-level system whose coupling operator has a repeated eigenvalue (non-trivial degeneracy classes), diagonal or rotated
+            op = np.diag(rng.choice([[1.0, 1.0, 2.0], [0.5, -1.0, 0.5], [0.0, 0.0, 1.0]])).astype(complex)
+            if rng.random() < 0.5:
+                z_ = np.array([[rng.gauss(0, 1) + 1j * rng.gauss(0, 1) for _ in range(3)] for _ in range(3)])
+                q_, _ = np.linalg.qr(z_)
+                op = q_ @ op @ q_.conj().T
+                op = (op + op.conj().T) / 2
         bath = oqupy.Bath(op, corr)
         kind = rng.choice(["const", "td", "lindblad", "pulse", "even"]) if it >= 2 else ["pulse", "even"][it]
         h0 = 0.4 * sx + 0.3 * sz
+        if three:
+            a3 = np.array([[rng.gauss(0, 1) + 1j * rng.gauss(0, 1) for _ in range(3)] for _ in range(3)])
+            h0 = (a3 + a3.conj().T) / 4
+            lower = np.diag([1.0, 1.0], -1).astype(complex)
+            kind = "const3"
         if kind == "even":
             start = -n * dt / 2          # window symmetric about the centre of an even pulse
-        if kind == "const":
+        if kind == "const3":
+            sysm = oqupy.System(h0, gammas=[0.1], lindblad_operators=[lower]) if rng.random() < 0.5 else oqupy.System(h0)
+        elif kind == "const":
             sysm = oqupy.System(h0, gammas=[0.1], lindblad_operators=[oqupy.operators.sigma("-")]) if rng.random() < 0.5 else oqupy.System(h0)
         elif kind == "td":
             sysm = oqupy.TimeDependentSystem(lambda t: h0 + 0.2 * np.sin(t) * sy)
@@ -147,6 +163,10 @@ def api_search(chk, n_cases):
             sysm = oqupy.TimeDependentSystem(lambda t: h0, gammas=[lambda t: 0.1 + 0.05 * t], lindblad_operators=[lambda t: oqupy.operators.sigma("-")])
         rho0 = oqupy.operators.spin_dm(rng.choice(["x+", "z-", "y+"]))
         unique = rng.random() < 0.5
+        if three:
+            rho0 = a3 @ a3.conj().T
+            rho0 = rho0 / np.trace(rho0)
+            unique = rng.random() < 0.75
         info = {"dt": dt, "n": n, "start": start, "dkmax": dkmax, "tau_add": tau, "system": kind, "epsrel": eps, "unique": unique}
         try:
             if it % 3 == 2:
@@ -174,6 +194,109 @@ def api_search(chk, n_cases):
                 chk.fail("prefix-differs-api", "the first steps from a longer process tensor differ from the full run", info)
 
 
+def glue_check(chk, n_cases, force_unique=False, spectra=None):
+    """the library's own glue between the back-ends and influence_matrix (Tempo._influence, PtTempo._influence,
+    MeanFieldTempo._get_influence): whatever step distance dk a back-end asks for, influence_matrix must be called with
+    exactly that dk, the object's parameters, the bath's correlations and coupling spectra and, with unique=True, the FIRST
+    index of every degeneracy class (None otherwise).  Exact, no physics involved."""
+    import oqupy.tempo as tmod
+    import oqupy.pt_tempo as pmod
+    rng = chk.rng
+    sx, sy, sz = (oqupy.operators.sigma(a) for a in "xyz")
+    real = tmod.influence_matrix
+    for it in range(n_cases):
+        method = ["tempo", "pttempo", "meanfield"][it % 3]
+        d = rng.choice([2, 3])
+        unique = force_unique or rng.random() < 0.6
+        dt = rng.choice([0.1, 0.2])
+        n = rng.randint(4, 8)
+        dkmax = rng.choice([None, 1, 2, 3])
+        tau = rng.choice([None, 0.15, 0.33, 0.5, np.inf]) if dkmax is not None else None
+        par = oqupy.TempoParameters(dt=dt, epsrel=1e-4, dkmax=dkmax, add_correlation_time=tau)
+        ev = [rng.choice([0.0, 1.0, 1.0, 2.0]) for _ in range(d)]
+        if spectra:
+            ev = list(spectra[(it // 3) % len(spectra)])
+            d = len(ev)
+        O = np.diag(ev).astype(complex)
+        if rng.random() < 0.5:
+            z = np.array([[rng.gauss(0, 1) + 1j * rng.gauss(0, 1) for _ in range(d)] for _ in range(d)])
+            q, _ = np.linalg.qr(z)
+            O = q @ O @ q.conj().T
+            O = (O + O.conj().T) / 2
+        corr = oqupy.PowerLawSD(alpha=0.1, zeta=1, cutoff=2.0, cutoff_type="exponential", temperature=0.2)
+        bath = oqupy.Bath(O, corr)
+        calls, asked = [], []
+
+        def rec(dk, parameters=None, correlations=None, coupling_acomm=None, coupling_comm=None, deg_positions=None, **kw):
+            calls.append((dk, parameters, correlations, coupling_acomm, coupling_comm, deg_positions, sorted(kw)))
+            return real(dk, parameters=parameters, correlations=correlations, coupling_acomm=coupling_acomm, coupling_comm=coupling_comm,
+                        deg_positions=deg_positions, **kw)
+        info = {"kind": "glue", "method": method, "d": d, "unique": unique, "dkmax": dkmax, "tau_add": tau, "n": n, "dt": dt, "eigenvalues": ev}
+        tmod.influence_matrix = rec
+        pmod.influence_matrix = rec
+        try:
+            H = np.diag(np.arange(d)).astype(complex) * 0.3
+            rho0 = np.eye(d, dtype=complex) / d
+            if method == "tempo":
+                obj = oqupy.Tempo(oqupy.System(H), bath, par, rho0, 0.0, unique=unique)
+                inner = obj._influence
+                obj._backend_instance._influence = lambda dk: (asked.append(dk), inner(dk))[1]
+                quiet(obj.compute, n * dt, progress_type="silent")
+            elif method == "pttempo":
+                obj = oqupy.PtTempo(bath, 0.0, n * dt, par, unique=unique)
+                inner = obj._influence
+                obj._backend_instance._influence = lambda dk: (asked.append(dk), inner(dk))[1]
+                quiet(obj.compute, progress_type="silent")
+            else:
+                # two species: the second bath carries the same spectrum in another order
+                ev2 = ev[1:] + ev[:1]
+                bath2 = oqupy.Bath(np.diag(ev2).astype(complex), corr)
+                ss_ = [oqupy.TimeDependentSystemWithField(lambda t, a: H) for _ in range(2)]
+                mfs = oqupy.MeanFieldSystem(ss_, field_eom=lambda t, st, a: 0.0)
+                obj = oqupy.MeanFieldTempo(mfs, [bath, bath2], par, [rho0, rho0], 0.0 + 0j, 0.0, unique=unique)
+                quiet(obj.compute, n * dt, progress_type="silent")
+                # keep the calls that belong to the first bath for the checks below, verify the second bath's here
+                calls2 = [c for c in calls if np.array_equal(c[4], bath2.coupling_comm) and np.array_equal(c[3], bath2.coupling_acomm)
+                          and not (np.array_equal(c[4], bath.coupling_comm) and np.array_equal(c[3], bath.coupling_acomm))]
+                if unique and calls2:
+                    n2, w2 = np.array(bath2.north_degeneracy_map), np.array(bath2.west_degeneracy_map)
+                    want2 = [[int(np.where(n2 == c)[0][0]) for c in range(n2.max() + 1)], [int(np.where(w2 == c)[0][0]) for c in range(w2.max() + 1)]]
+                    for c in calls2:
+                        if c[5] is None or [list(map(int, x)) for x in c[5]] != want2:
+                            chk.fail("influence-glue", f"meanfield (unique=True): the second species' influence was requested with degeneracy positions "
+                                     f"{None if c[5] is None else [list(map(int, x)) for x in c[5]]}, the first members of ITS classes are {want2}", info)
+                            break
+                calls[:] = [c for c in calls if c not in calls2]
+        except Exception as ex:
+            chk.fail("api-raises", f"{method} raises {ex!r}", info)
+            continue
+        finally:
+            tmod.influence_matrix = real
+            pmod.influence_matrix = real
+        chk.search_cases += 1
+        chk.count("glue_" + method)
+        chk.case(info, ("glue", method, d, unique, dkmax, tau, n, dt, tuple(ev)))
+        if unique:
+            nmap, wmap = np.array(bath.north_degeneracy_map), np.array(bath.west_degeneracy_map)
+            want_pos = [[int(np.where(nmap == c)[0][0]) for c in range(nmap.max() + 1)], [int(np.where(wmap == c)[0][0]) for c in range(wmap.max() + 1)]]
+        bad = None
+        if asked and [c[0] for c in calls] != asked:
+            bad = f"the back-end asked for step distances {asked[:12]}..., influence_matrix was called with {[c[0] for c in calls][:12]}..."
+        for c in calls:
+            if bad:
+                break
+            if c[1] is not par and not (c[1].dt == par.dt and c[1].dkmax == par.dkmax and c[1].add_correlation_time == par.add_correlation_time and c[1].epsrel == par.epsrel):
+                bad = "influence_matrix was called with different parameters"
+            elif not (np.array_equal(c[3], bath.coupling_acomm) and np.array_equal(c[4], bath.coupling_comm)) or c[6]:
+                bad = "influence_matrix was called with coupling spectra other than the bath's"
+            elif (c[5] is None) == unique or (unique and [list(map(int, x)) for x in c[5]] != want_pos):
+                bad = f"influence_matrix was called with degeneracy positions {None if c[5] is None else [list(map(int, x)) for x in c[5]]}, the first members of the classes are {want_pos if unique else None}"
+        if not calls:
+            bad = "influence_matrix was never called"
+        if bad:
+            chk.fail("influence-glue", f"{method} (unique={unique}, dkmax={dkmax}, add_correlation_time={tau}): {bad}", info)
+
+
 def run(chk):
     thorough = chk.tier == "thorough"
     chk.proofs()
@@ -184,6 +307,7 @@ def run(chk):
         chk.disagree("coq evaluation", e)
     compare(chk, vals, expected, meta)
     api_search(chk, 40 if (thorough or chk.disagreements or chk.broken) else 10)
+    glue_check(chk, 36 if thorough else 12)
     return chk.finish(
         level="proof",
         trusted=["models: Model/Schedule.v (which influence where), Model/PathSum.v (exact network value), Model/PT.v + Model/Dyn.v",
